@@ -94,7 +94,13 @@ func c10History(t *testing.T, idx int, seed uint64) {
 			case c == nil: // connect
 				clean := r.Intn(3) == 0
 				ops = append(ops, fmt.Sprintf("%s CONNECT clean=%v", id, clean))
-				nc, ack := w.connectB(id, connectOpts{ClientID: id, Clean: clean, KeepAlive: 600})
+				// the CONNECT packets of one client differ in length from connection to connection (credentials
+				// of 0..250 bytes come and go), as a client's may
+				co := connectOpts{ClientID: id, Clean: clean, KeepAlive: 600}
+				if r.Intn(3) > 0 {
+					co.User, co.Pass = "user-"+strings.Repeat("x", r.Intn(120)), "p"+strings.Repeat("y", r.Intn(120))
+				}
+				nc, ack := w.connectB(id, co)
 				if ack == nil || ack.ReturnCode != 0 {
 					fail("c10:connect", fmt.Sprintf("%s: no CONNACK 0 (%v)", id, ack))
 					return
